@@ -34,18 +34,18 @@ def run(ctx):
     ctx.preload(cfgs)
     for cfg in cfgs:
         fs = ctx.facts(cfg)
-        consumers.consumers(ctx, cfg, fs, 'C.consumers')
-        consumers.primitives(ctx, cfg, fs, 'P.primitives')
-        consumers.itemstate(ctx, cfg, fs, 'P.primitives')
-        consumers.leftover(ctx, cfg, fs, 'O.leftover')
+        ctx.guard(consumers.consumers, ctx, cfg, fs, 'C.consumers')
+        ctx.guard(consumers.primitives, ctx, cfg, fs, 'P.primitives')
+        ctx.guard(consumers.itemstate, ctx, cfg, fs, 'P.primitives')
+        ctx.guard(consumers.leftover, ctx, cfg, fs, 'O.leftover')
         table = c06.k1(ctx, cfg, fs)
-        c06.k3(ctx, cfg, fs, table)
-        c06.k5(ctx, cfg, fs)
-        parsecon(ctx, cfg, fs)
-        c12.walker_rules(ctx, cfg, fs, 'R.registry', {'collect_shorts': c12.WALKERS['collect_shorts']})
-        c08.keep_only(ctx, lambda: c02.lossless(ctx, cfg, fs), lambda o: 'parse_os_str' in o.key or o.key.startswith('value-path'), 'L.lossless')
-        c08.keep_only(ctx, lambda: c02.boundaries(ctx, cfg, fs), lambda o: 'width-table' in o.key or 'cluster-test' in o.key, 'B.boundaries')
-    shapes.construct_shapes(ctx, 'W.construct')
+        ctx.guard(c06.k3, ctx, cfg, fs, table)
+        ctx.guard(c06.k5, ctx, cfg, fs)
+        ctx.guard(parsecon, ctx, cfg, fs)
+        ctx.guard(c12.walker_rules, ctx, cfg, fs, 'R.registry', {'collect_shorts': c12.WALKERS['collect_shorts']})
+        ctx.guard(c08.keep_only, ctx, lambda: c02.lossless(ctx, cfg, fs), lambda o: 'parse_os_str' in o.key or o.key.startswith('value-path'), 'L.lossless')
+        ctx.guard(c08.keep_only, ctx, lambda: c02.boundaries(ctx, cfg, fs), lambda o: 'width-table' in o.key or 'cluster-test' in o.key, 'B.boundaries')
+    ctx.guard(shapes.construct_shapes, ctx, 'W.construct')
 
 def parsecon(ctx, cfg, fs):
     b = ctx.look(fs.one(r'^<structs::ParseCon<P> as Parser<T>>::eval$'))
